@@ -163,6 +163,11 @@ pub enum RCall {
     FfiHash { bytes: Vec<u8> },
     FfiVerifyRln { msg: usize },
     Recover { a: usize, b: usize },
+    /// second instance in the same process, built from another valid key for the same circuit: verifies one of its own
+    /// messages (expected true) or one of the first instance's (expected false)
+    VerifyOnB { msg: usize, foreign: bool },
+    /// the first instance verifies a message of the second one (expected false)
+    VerifyBOnA { msg: usize },
 }
 
 impl RCall {
@@ -188,6 +193,8 @@ impl RCall {
             RCall::FfiHash { bytes } => json!({"c":"ffi_hash","bytes":hex(bytes)}),
             RCall::FfiVerifyRln { msg } => json!({"c":"ffi_verify_rln","msg":*msg as u64}),
             RCall::Recover { a, b } => json!({"c":"recover","a":*a as u64,"b":*b as u64}),
+            RCall::VerifyOnB { msg, foreign } => json!({"c":"verify_on_b","msg":*msg as u64,"foreign":*foreign}),
+            RCall::VerifyBOnA { msg } => json!({"c":"verify_b_on_a","msg":*msg as u64}),
         }
     }
     pub fn from_json(v: &Value) -> Option<RCall> {
@@ -214,6 +221,8 @@ impl RCall {
             "ffi_hash" => RCall::FfiHash { bytes: hb("bytes") },
             "ffi_verify_rln" => RCall::FfiVerifyRln { msg: u("msg") },
             "recover" => RCall::Recover { a: u("a"), b: u("b") },
+            "verify_on_b" => RCall::VerifyOnB { msg: u("msg"), foreign: v["foreign"].as_bool().unwrap_or(false) },
+            "verify_b_on_a" => RCall::VerifyBOnA { msg: u("msg") },
             _ => return None,
         })
     }
@@ -239,6 +248,8 @@ pub struct BatonTrace {
     /// dropped (so whatever the instance fills lazily is cold when the callers arrive); the sequential reference is taken
     /// on the first instance, before it is dropped
     pub reload: bool,
+    /// a second instance built from another valid key for the same circuit lives in the process; some calls verify on it
+    pub two_keys: bool,
 }
 
 impl BatonTrace {
@@ -253,6 +264,7 @@ impl BatonTrace {
             "schedule_cold":self.schedule_cold,
             "schedule_shared":self.schedule_shared,
             "reload":self.reload,
+            "two_keys":self.two_keys,
         })
     }
     pub fn from_json(v: &Value) -> Option<BatonTrace> {
@@ -272,6 +284,7 @@ impl BatonTrace {
             schedule_cold: sched("schedule_cold"),
             schedule_shared: sched("schedule_shared"),
             reload: v["reload"].as_bool().unwrap_or(false),
+            two_keys: v["two_keys"].as_bool().unwrap_or(false),
         })
     }
     pub fn digest(&self) -> u64 {
@@ -293,6 +306,9 @@ struct Shared {
     rln: RLN,
     msgs: Vec<(Vec<u8>, Vec<u8>)>,
     depth: usize,
+    /// second instance (another valid key for the same circuit) and its messages
+    rln_b: Option<RLN>,
+    msgs_b: Vec<Vec<u8>>,
 }
 
 fn do_call(c: &RCall, sh: Option<&Shared>) -> RResult {
@@ -388,6 +404,23 @@ fn do_call(c: &RCall, sh: Option<&Shared>) -> RResult {
                         let mut w = Vec::new();
                         let r = sh.rln.recover_id_secret(Cursor::new(msg(*a).0), Cursor::new(msg(*b).0), &mut w);
                         if r.is_ok() { RResult::Bytes(w) } else { RResult::None }
+                    }
+                    RCall::VerifyOnB { msg: k, foreign } => match &sh.rln_b {
+                        // (the reference instance has no second key: the expected verdict is known a priori)
+                        None => RResult::Verdict(Some(!*foreign)),
+                        Some(b) => {
+                            let bytes = if *foreign { msg(*k).0[..288].to_vec() } else { sh.msgs_b[*k % sh.msgs_b.len().max(1)].clone() };
+                            let r = b.verify(Cursor::new(bytes));
+                            RResult::Verdict(r.ok())
+                        }
+                    },
+                    RCall::VerifyBOnA { msg: k } => {
+                        if sh.msgs_b.is_empty() {
+                            RResult::Verdict(Some(false))
+                        } else {
+                            let r = sh.rln.verify(Cursor::new(sh.msgs_b[*k % sh.msgs_b.len()].clone()));
+                            RResult::Verdict(r.ok())
+                        }
                     }
                     _ => RResult::None,
                 }
@@ -736,10 +769,41 @@ pub fn run_baton(trace: &BatonTrace, prop: &str, cold_process: bool) -> BatonOut
             }
         }
     }
+    // a second instance with another valid key for the same circuit (what a deployment holds during a key rotation)
+    let mut rln_b: Option<RLN> = None;
+    let mut msgs_b: Vec<Vec<u8>> = Vec::new();
+    #[cfg(not(feature = "arkzkey"))]
+    if trace.two_keys {
+        let key_b = rotated_zkey(Fr::from(0x5eed_u64 + (trace.seed % 1000)));
+        match guarded(|| RLN::new_with_params(depth, key_b.clone(), rln::circuit::graph_from_folder().to_vec(), Cursor::new(Vec::<u8>::new()))) {
+            Ok(Ok(mut b)) => {
+                for (secret, limit, index, id, ext, signal) in &trace.publishes {
+                    let _ = b.set_leaf(*index, Cursor::new(fr_to_le32(&rate_commitment(secret, limit)).to_vec()));
+                    let req = enc_request(secret, *index as u64, limit, id, ext, signal);
+                    let mut w = Vec::new();
+                    match guarded(|| b.generate_rln_proof(Cursor::new(req.clone()), &mut w)) {
+                        Ok(Ok(())) => msgs_b.push(w),
+                        other => {
+                            o.harness_error = Some(format!("generate_rln_proof on the second instance: {:?}", other.map(|x| x.map_err(|e| e.to_string()))));
+                            o.counters = counters;
+                            return o;
+                        }
+                    }
+                }
+                rln_b = Some(b);
+                counters.inc("reach.second_instance_with_another_key");
+            }
+            other => {
+                o.harness_error = Some(format!("RLN::new_with_params (rotated key): {:?}", other.map(|x| x.map(|_| ()).map_err(|e| e.to_string()))));
+                o.counters = counters;
+                return o;
+            }
+        }
+    }
     let mut want_pre: Vec<Vec<RResult>> = Vec::new();
     let sh = if trace.reload {
         // the sequential reference: every scripted call once, on the first instance
-        let first = Shared { rln, msgs, depth };
+        let first = Shared { rln, msgs, depth, rln_b: None, msgs_b: Vec::new() };
         for script in &trace.shared {
             want_pre.push(script.iter().map(|c| do_call(c, Some(&first))).collect());
         }
@@ -760,7 +824,7 @@ pub fn run_baton(trace: &BatonTrace, prop: &str, cold_process: bool) -> BatonOut
             }
         };
         counters.inc("reach.shared_instance_reloaded_from_storage");
-        Arc::new(Shared { rln: second, msgs, depth })
+        Arc::new(Shared { rln: second, msgs, depth, rln_b, msgs_b })
     } else {
         // the sequential reference comes from a second, identically built instance (never from the shared one, whose state
         // a race may have damaged for good)
@@ -779,11 +843,11 @@ pub fn run_baton(trace: &BatonTrace, prop: &str, cold_process: bool) -> BatonOut
         for (secret, limit, index, _, _, _) in &trace.publishes {
             let _ = twin.set_leaf(*index, Cursor::new(fr_to_le32(&rate_commitment(secret, limit)).to_vec()));
         }
-        let reference = Shared { rln: twin, msgs: msgs.clone(), depth };
+        let reference = Shared { rln: twin, msgs: msgs.clone(), depth, rln_b: None, msgs_b: Vec::new() };
         for script in &trace.shared {
             want_pre.push(script.iter().map(|c| do_call(c, Some(&reference))).collect());
         }
-        Arc::new(Shared { rln, msgs, depth })
+        Arc::new(Shared { rln, msgs, depth, rln_b, msgs_b })
     };
     // ---- phase 2: shared instance
     let p2 = run_phase(&trace.shared, Some(sh.clone()), trace.seed ^ 0x22, trace.mode, &trace.schedule_shared, 180);
@@ -966,7 +1030,24 @@ pub fn generate_baton(seed: u64, thorough: bool, keygen_heavy: bool) -> BatonTra
             *sc = head;
         }
     }
-    BatonTrace { seed, mode, threads, cold, leaves, publishes, shared, schedule_cold: Vec::new(), schedule_shared: Vec::new(), reload }
+    // one scenario in three also holds a second instance built from another valid key: each instance accepts its own messages
+    // and refuses the other's, whoever verifies first
+    let two_keys = cfg!(feature = "pm") && !cfg!(feature = "arkzkey") && !keygen_heavy && r2.chance(1, 3);
+    if two_keys {
+        for sc in shared.iter_mut() {
+            let extra = 1 + r2.usize_below(3);
+            for _ in 0..extra {
+                let c = match r2.below(3) {
+                    0 => RCall::VerifyOnB { msg: r2.usize_below(npub), foreign: false },
+                    1 => RCall::VerifyOnB { msg: r2.usize_below(npub), foreign: true },
+                    _ => RCall::VerifyBOnA { msg: r2.usize_below(npub) },
+                };
+                let at = r2.usize_below(sc.len() + 1);
+                sc.insert(at, c);
+            }
+        }
+    }
+    BatonTrace { seed, mode, threads, cold, leaves, publishes, shared, schedule_cold: Vec::new(), schedule_shared: Vec::new(), reload, two_keys }
 }
 
 // ------------------------------------------------------------------------------------------------
@@ -1456,4 +1537,85 @@ fn fnv_bytes(b: &[u8]) -> u64 {
     let mut f = Fnv::new();
     f.add(b);
     f.0
+}
+
+
+// ------------------------------------------------------------------------------------------------
+// Another valid key for the same circuit: the bundled snarkjs key after one more contribution to delta (delta multiplied by k,
+// the L and H queries by 1/k) - what a deployment holds after a key rotation. Construction adapted from the demonstration of the
+// independent seeded change s9-C18.
+// ------------------------------------------------------------------------------------------------
+
+#[cfg(not(feature = "arkzkey"))]
+pub fn rotated_zkey(k: Fr) -> Vec<u8> {
+    use ark_bn254::{Fq, Fq2, G1Affine, G2Affine};
+    use ark_ec::{AffineRepr, CurveGroup};
+    use ark_ff::{BigInt, Field, Zero};
+    fn read_fq(b: &[u8]) -> Fq {
+        let mut limbs = [0u64; 4];
+        for (i, limb) in limbs.iter_mut().enumerate() {
+            *limb = u64::from_le_bytes(b[8 * i..8 * i + 8].try_into().unwrap());
+        }
+        Fq::new_unchecked(BigInt::new(limbs))
+    }
+    fn write_fq(v: &Fq, b: &mut [u8]) {
+        for (i, limb) in (v.0).0.iter().enumerate() {
+            b[8 * i..8 * i + 8].copy_from_slice(&limb.to_le_bytes());
+        }
+    }
+    fn read_g1(b: &[u8]) -> G1Affine {
+        let (x, y) = (read_fq(&b[..32]), read_fq(&b[32..64]));
+        if x.is_zero() && y.is_zero() { G1Affine::identity() } else { G1Affine::new_unchecked(x, y) }
+    }
+    fn write_g1(p: &G1Affine, b: &mut [u8]) {
+        if p.is_zero() {
+            b[..64].fill(0);
+        } else {
+            write_fq(&p.x, &mut b[..32]);
+            write_fq(&p.y, &mut b[32..64]);
+        }
+    }
+    fn read_g2(b: &[u8]) -> G2Affine {
+        let x = Fq2::new(read_fq(&b[..32]), read_fq(&b[32..64]));
+        let y = Fq2::new(read_fq(&b[64..96]), read_fq(&b[96..128]));
+        G2Affine::new_unchecked(x, y)
+    }
+    fn write_g2(p: &G2Affine, b: &mut [u8]) {
+        write_fq(&p.x.c0, &mut b[..32]);
+        write_fq(&p.x.c1, &mut b[32..64]);
+        write_fq(&p.y.c0, &mut b[64..96]);
+        write_fq(&p.y.c1, &mut b[96..128]);
+    }
+    let mut zkey = rln::circuit::ZKEY_BYTES.to_vec();
+    // sections: id<4> size<8> data
+    let n = u32::from_le_bytes(zkey[8..12].try_into().unwrap());
+    let mut pos = 12usize;
+    let mut sections: BTreeMap<u32, (usize, usize)> = BTreeMap::new();
+    for _ in 0..n {
+        let id = u32::from_le_bytes(zkey[pos..pos + 4].try_into().unwrap());
+        let size = u64::from_le_bytes(zkey[pos + 4..pos + 12].try_into().unwrap()) as usize;
+        pos += 12;
+        sections.insert(id, (pos, size));
+        pos += size;
+    }
+    let k_inv = k.inverse().unwrap();
+    // header (section 2): n8q<4> q<32> n8r<4> r<32> nVars<4> nPublic<4> domainSize<4> alpha_g1<64> beta_g1<64> beta_g2<128>
+    // gamma_g2<128> delta_g1<64> delta_g2<128>
+    let (header, _) = sections[&2];
+    let delta_g1_at = header + 84 + 64 + 64 + 128 + 128;
+    let delta_g2_at = delta_g1_at + 64;
+    let d1 = (read_g1(&zkey[delta_g1_at..]) * k).into_affine();
+    write_g1(&d1, &mut zkey[delta_g1_at..]);
+    let d2 = (read_g2(&zkey[delta_g2_at..]) * k).into_affine();
+    write_g2(&d2, &mut zkey[delta_g2_at..]);
+    for id in [8u32, 9u32] {
+        let (start, size) = sections[&id];
+        let mut at = start;
+        while at + 64 <= start + size {
+            let p = (read_g1(&zkey[at..]) * k_inv).into_affine();
+            write_g1(&p, &mut zkey[at..]);
+            at += 64;
+        }
+    }
+    zkey
 }
